@@ -17,7 +17,7 @@ PROP = "C11"
 LEVEL = "proof"
 GEN_UNITS = []
 SHARD = 8
-COQ_TARGETS = ["Props/C11.vo", "Props/C11w4.vo", "Model/C11Check.vo", "Model/C11Replay.vo", "Model/Harness.vo"]
+COQ_TARGETS = ["Props/C11.vo", "Props/C11w4.vo", "Model/C11Check.vo", "Model/C11Replay.vo", "Model/C11Lbfgs.vo", "Model/Harness.vo"]
 THEOREM_FILES = ["Props/C11.v", "Props/C11w4.v"]
 COQ_IMPORTS = ("From Coq Require Import List ZArith Bool QArith Qcanon.\n"
                "From PV Require Import Base.Index Np.Array Model.Sparse Model.Repr Model.Harness Model.C11Check Model.C11Replay Model.C11Lbfgs.\n")
